@@ -52,6 +52,22 @@ Fixpoint split_mark (l : list str) : list str * list str :=
               else let '(a, b) := split_mark r in (x :: a, b)
   end.
 
+Definition render_api (a : apires) : str :=
+  match a with
+  | ApiOk r => 61 :: r
+  | ApiValueError => s2l "EXC:ValueError"
+  | ApiMesonErr => exc_meson
+  | ApiOutOfModel => s2l "OOM"
+  end.
+Definition render_obs (o : dep_obs) : str :=
+  match o with ObsAccept b => bool_str b | ObsApi a => render_api a end.
+Definition decode_op (s : str) : dep_op :=
+  match s with
+  | 97 :: v => DAccepts v
+  | 117 :: r => DUpdate r
+  | _ => DApi
+  end.
+
 Definition cmp6 (a b : vec) : str :=
   concat (map bool_str [sv_cmp KLt a b; sv_cmp KLe a b; vec_eqb a b; negb (vec_eqb a b);
                         sv_cmp KGe a b; sv_cmp KGt a b]).
@@ -73,6 +89,11 @@ Definition run (fn : str) (args : list str) : str :=
     | _ => s2l "?" end
   else if str_eqb fn (s2l "sort") then
     join SEP1 (sort_desc args)
+  else if str_eqb fn (s2l "depseq") then
+    (* args: initial requirement, then operations "a"+version | "p" | "u"+requirement *)
+    match args with
+    | r0 :: ops => join SEP1 (map render_obs (dep_run r0 (map decode_op ops)))
+    | _ => s2l "?" end
   else if str_eqb fn (s2l "api") || str_eqb fn (s2l "pkgapi") then
     match args with
     | [a] => match api a with
